@@ -13,7 +13,7 @@ def entry_is(e, code, register, data5, ts):
     if not (isinstance(e, SObj) and e.cls.__name__ == "EmcyError"):
         return False
     return And(compare("==", e.fields["code"], code), compare("==", e.fields["register"], register),
-               S.is_bytes(e.fields["data"], 5), S.eq(e.fields["data"], data5), e.fields["timestamp"] is ts)
+               S.is_bytes(e.fields["data"], 5), S.eq(e.fields["data"], data5), e.fields["timestamp"] == ts)
 
 
 @contract
@@ -90,7 +90,42 @@ class EmcyReset(Contract):
         return Call(("method", cons, "reset"), [])
 
     ensures = {"both-empty": lambda s: And(s.returned, S.is_empty_list(s.w.get(s.pre["cons"], "log")),
-                                           S.is_empty_list(s.w.get(s.pre["cons"], "active")))}
+                                           S.is_empty_list(s.w.get(s.pre["cons"], "active"))),
+               "two-separate-lists": lambda s: s.w.get(s.pre["cons"], "log") is not s.w.get(s.pre["cons"], "active")}
+
+
+@contract
+class EmcyResetThenFrames(Contract):
+    """history: reset() followed by two error frames: the log holds exactly those two entries once each, in order, and
+    so does the active list"""
+    target = "canopen.emcy:EmcyConsumer.reset"
+    id = "EmcyResetThenFrames"
+    functions = ("canopen.emcy:EmcyConsumer.on_emcy",)
+    props = ("C16",)
+
+    def setup(self, w, case):
+        cons = w.obj(CONS, log=w.plist("log"), active=w.plist("active"), callbacks=w.list([]), emcy_received=w.new_condition())
+        d1, d2 = w.bytes("d1", 8), w.bytes("d2", 8)
+        w.assume(compare("!=", S.byte(d1, 1), 0))
+        w.assume(compare("!=", S.byte(d2, 1), 0))
+        w.pre.update(cons=cons, d1=d1, d2=d2)
+        return Call(("func", "env.drivers", "emcy_reset_then", ), [cons, d1, d2])
+
+    def observe(self, w):
+        c = w.pre["cons"]
+        return {"nlog": len(w.get(c, "log")), "nactive": len(w.get(c, "active"))}
+
+    @staticmethod
+    def ok(s):
+        c = s.pre["cons"]
+        log, act = s.w.get(c, "log"), s.w.get(c, "active")
+        if log.base is not None or act.base is not None or len(log.items) != 2 or len(act.items) != 2:
+            return False
+        return And(entry_is(log.items[0], S.le_uint(S.sub(s.pre["d1"], 0, 2)), S.byte(s.pre["d1"], 2), S.sub(s.pre["d1"], 3, 8), 1.0),
+                   entry_is(log.items[1], S.le_uint(S.sub(s.pre["d2"], 0, 2)), S.byte(s.pre["d2"], 2), S.sub(s.pre["d2"], 3, 8), 2.0),
+                   act.items[0] is log.items[0], act.items[1] is log.items[1])
+
+    ensures = {"one-entry-per-frame-after-reset": lambda s: And(s.returned, EmcyResetThenFrames.ok(s))}
 
 
 @contract
